@@ -25,6 +25,9 @@ def build_scenarios(families, tier, wd, seed):
     for k in range(4 if tier == 'quick' else 16):
         scenarios.append(dict(id=f'garbage-{k}', family='garbage', kind='garbage', per_type=60 if tier == 'quick' else 250, seed=rnd.randrange(1 << 30), steps=[1, 2, 3],
                               cfg=dict(cache='off')))
+    for k in range(4 if tier == 'quick' else 24):
+        scenarios.append(dict(id=f'messages-{k}', family='messages', kind='messages', per_type=40 if tier == 'quick' else 120, seed=rnd.randrange(1 << 30), steps=[1, 2, 3],
+                              cfg=dict(cache=rnd.choice(['off', 'large']), save_threshold=rnd.choice([1, 3, 1000]))))
     return scenarios, {'wire': dict(roundtrip_scenarios=nrt, instances_per_type=150 if tier == 'quick' else 600)}
 
 
@@ -39,9 +42,12 @@ def attribute(prop, scn, events_bad):
 def nontrivial(prop, scn, evs):
     if scn['kind'] == 'roundtrip':
         return len({e['type'] for e in evs if e['ev'] == 'roundtrip' and e['sdk_valid'] and e['decode'] == 'ok'}) >= 40
+    if scn['kind'] == 'messages':
+        return sum(1 for e in evs if e['ev'] == 'pollback' and e['res'] == 'ok' and len(e['got']) > 0) >= 50
     return len({e['kind'] for e in evs if e['ev'] == 'garbage' and not e['is_valid']}) >= 4
 
-RULES = {'C13': 'round-trip scenarios in which >= 40 command types were decoded from valid SDK encodings; garbage scenarios with >= 4 kinds of malformed frame'}
-ASSUMPTIONS = ['requests: 49 command types built with seeded structure-aware values (numeric / 1,2,3,255-byte string identifiers, optional fields, all header kinds, all polling strategies and partitioning kinds), SDK-encoded and decoded by the server\'s own decoder (guarded re-export); the snapshot command and QUIC framing are not covered',
+RULES = {'C13': 'round-trip scenarios in which >= 40 command types were decoded from valid SDK encodings; garbage scenarios with >= 4 kinds of malformed frame; message scenarios with >= 50 non-empty poll answers compared'}
+ASSUMPTIONS = ['poll responses: messages with payloads of 1..4096 bytes (boundary lengths), with and without headers of all kinds, explicit and server-assigned ids, sent over TCP and HTTP, polled back over both in every window (offset, 1..3) and as a whole',
+               'requests: 49 command types built with seeded structure-aware values (numeric / 1,2,3,255-byte string identifiers, optional fields, all header kinds, all polling strategies and partitioning kinds), SDK-encoded and decoded by the server\'s own decoder (guarded re-export); the snapshot command and QUIC framing are not covered',
                'responses are covered end to end by the other lenses (every scenario runs through the real TCP handlers and SDK decoders; the catalogue lens also over HTTP/JSON)',
                'exhaustive structure-aware fidelity over ALL values is outside this technique: the values are sampled']
